@@ -46,7 +46,7 @@ CHECKS = {
    text='PhaseShift.tla: for all point subsets of the 16-grid and all inputs TLC checks InRange, ShiftBijection, GapOnBoundary; PhaseMini.tla models round-to-nearest and numpy\'s remainder on a 4-bit mantissa: the repaired algorithm stays in [0,1) for all representable (x, centre), the original does not. The real compute()/transform() are replayed on grid point sets where float arithmetic is exact, and centres and complete forward/inverse tables must EQUAL the model; the hazard classes of the minifloat model (neighbours of both wrap positions, of 0 and of 1) are instantiated in float64.',
    ref='DESIGN 4.7, 5/C16'),
  'C08': dict(cat='model_checking', tech='TLA+ spec (UnionSampling.tla, exact rationals) model-checked with TLC + trace validation (RoundTrace.tla) of reconstructed sampling rounds of the real Union / NautilusBound',
-   text='PARTIAL. Decided: (a) the sampling RULE (member proportional to volume, cube filter, accept with probability 1/multiplicity) is uniform over the region and its volume estimator calibrated -- theorems checked by TLC with exact rational arithmetic over all covers of 3 cells by 3 ellipsoids (two wrong rules are refuted); (b) every iteration of the loops of Union.sample / NautilusBound.sample on real bounds, reconstructed with a recording generator, IS that rule: multinomial probabilities, cube filter, multiplicity from the members\' contains(), acceptance u > 1-1/m for the actual draw, counters, log_v formula, network filter, pool merge of both counter levels, also after a write/read round trip; (c) closed-form ellipsoid volume equals the volume of the matrix that defines contains(). NOT decided: uniformity inside a single ellipsoid and agreement of exp(log_v) with the true measure within its Monte-Carlo error (distributional; DESIGN 7).',
+   text='PARTIAL. Decided: (a) the sampling RULE (member proportional to volume, cube filter, accept with probability 1/multiplicity) is uniform over the region and its volume estimator calibrated -- theorems checked by TLC with exact rational arithmetic over all covers of 3 cells by 3 ellipsoids (two wrong rules are refuted); (b) every iteration of the loops of Union.sample / NautilusBound.sample on real bounds, reconstructed with a recording generator, IS that rule: multinomial probabilities, cube filter, multiplicity from the members\' contains(), acceptance u > 1-1/m for the actual draw, counters, log_v formula, network filter, pool merge of both counter levels, also after a write/read round trip, and the allocation of proposals to members observed at the members over eight refills is not a fixed function of the volumes (RD_AllocationRandom); (c) closed-form ellipsoid volume equals the volume of the matrix that defines contains(). NOT decided: uniformity inside a single ellipsoid and agreement of exp(log_v) with the true measure within its Monte-Carlo error (distributional; DESIGN 7).',
    ref='DESIGN 4.6, 5/C08, 7'),
  'C11': dict(cat='model_checking', tech='TLA+ specs (Evaluate.tla completion orders, Equiv.tla, Sampler.tla Observe) checked with TLC + paired-run digest traces and TLC-generated observer placements on the real code',
    text='Evaluate.tla: gathering by submission index is order-preserving under every completion order of the pool (TLC enumerates them; gathering by completion order is refuted); the enumerated orders script a pool for the real sampler. Reference and variant runs (same seed again, vectorised, likelihood pool 1/2/3, scripted pool, verbose, checkpointing, three accessors after every batch, unsliced) are compared by digest of the complete essential state at EVERY batch boundary (Equiv.tla); observer placements generated from Driver.tla are validated against Sampler.tla (OB_Frame, OB_Digest).',
